@@ -23,7 +23,7 @@ inductive Op where
   | removeNodeProp (id key : Nat)
   | setEdgeProp (id key : Nat) (v : String)
   | addLabel (id l : Nat)
-  | removeLabel (id l : Nat) (known : Bool)
+  | removeLabel (id l : Nat)
   | createIndex (key : Nat)
   | dropIndex (key : Nat)
 
@@ -37,7 +37,7 @@ def step (s : Store) : Op → Store
   | .removeNodeProp id k => (s.removeNodeProp id k).1
   | .setEdgeProp id k v => s.setEdgeProp id k v
   | .addLabel id l => (s.addLabel id l).1
-  | .removeLabel id l kn => (s.removeLabel id l kn).1
+  | .removeLabel id l => (s.removeLabel id l).1
   | .createIndex k => s.createIndex k
   | .dropIndex k => s.dropIndex k
 
@@ -228,8 +228,8 @@ theorem labelInv_addLabel (s : Store) (id l : Nat) (h : LabelInv s) : LabelInv (
           · simp only [hx, if_false] at hl
             exact h.live x l' hl
 
-theorem labelInv_removeLabel (s : Store) (id l : Nat) (kn : Bool) (h : LabelInv s) :
-    LabelInv (s.removeLabel id l kn).1 := by
+theorem labelInv_removeLabel (s : Store) (id l : Nat) (h : LabelInv s) :
+    LabelInv (s.removeLabel id l).1 := by
   unfold Store.removeLabel
   cases hg : aget s.nodes id with
   | none => exact h
@@ -237,9 +237,7 @@ theorem labelInv_removeLabel (s : Store) (id l : Nat) (kn : Bool) (h : LabelInv 
     simp only
     split
     · exact h
-    · split
-      · exact h
-      · cases hnl : aget s.nodeLabels id with
+    · cases hnl : aget s.nodeLabels id with
         | none => exact h
         | some ls =>
           simp only
@@ -314,7 +312,7 @@ theorem labelInv_step (s : Store) (op : Op) (h : LabelInv s) : LabelInv (step s 
   | createNode ls => exact labelInv_createNode s ls systemTx h
   | deleteNode id => exact labelInv_deleteNode s id h
   | addLabel id l => exact labelInv_addLabel s id l h
-  | removeLabel id l kn => exact labelInv_removeLabel s id l kn h
+  | removeLabel id l => exact labelInv_removeLabel s id l h
   | createEdge a b t => exact labelInv_of_same s _ h rfl rfl rfl rfl rfl
   | deleteEdge id =>
     obtain ⟨a, b, c, d, e⟩ := deleteEdgeAt_same s id s.epoch
@@ -388,7 +386,7 @@ theorem c14_known_deviation_witnesses :
   decide
 
 /-- N -/
-example : (run true [.createNode [1, 2], .createNode [2], .removeLabel 0 2 true, .deleteNode 1]).nodesByLabel 2 = [] ∧
-    (run true [.createNode [1, 2], .createNode [2], .removeLabel 0 2 true, .deleteNode 1]).nodesByLabel 1 = [0] := by decide
+example : (run true [.createNode [1, 2], .createNode [2], .removeLabel 0 2, .deleteNode 1]).nodesByLabel 2 = [] ∧
+    (run true [.createNode [1, 2], .createNode [2], .removeLabel 0 2, .deleteNode 1]).nodesByLabel 1 = [0] := by decide
 
 end Grafeo.Lpg
